@@ -89,11 +89,11 @@ theorem header_roundtrip (streams : List Stream) (L : Layout) (h : Valid streams
     (hdrDifat_lt streams L (valid_unpack streams L h))
 
 /-- `dir_entry_roundtrip`: name (UTF-16, BMP and astral, up to 31 units), start sector and size
-    (32 bits in version 3, 64 bits in version 4) of a directory entry are recovered -/
+    (32 bits in version 3, 64 bits in version 4) and object type of a directory entry are recovered -/
 theorem dir_entry_roundtrip (name : List Char) (typ : UInt8) (start size ss : Nat) (hn : nameEncOK name = true)
     (hs : start < 4294967296)
     (hsz : (ss = 512 ∧ size < 4294967296) ∨ (ss ≠ 512 ∧ size < 18446744073709551616)) :
-    Dir.fromSlice (dirEntry name typ start size) ss = .ok ⟨name, start, size⟩ :=
+    Dir.fromSlice (dirEntry name typ start size) ss = .ok ⟨name, start, size, typ.toNat⟩ :=
   fromSlice_dirEntry name typ start size ss hn hs hsz
 
 /-- UTF-16 encoding/decoding of names round-trips (whatever follows) -/
@@ -189,14 +189,24 @@ theorem cfb_roundtrip_regular (streams : List Stream) (L : Layout) (h : Valid st
     rw [hg.fats, he]
 
 /-- the reader as a lookup function (interface used by C18's `project` and by `Xls`): on a generated container it
-    returns exactly the streams — every stream by its name, nothing for any other name but the two pseudo
-    entries (`Root Entry` and the empty name of unused entries) -/
+    returns exactly the streams — every stream by its name, nothing for any other name (the root entry and the
+    unused entries are not stream entries: a stream may even be called `Root Entry`) -/
 theorem lookup_streams (streams : List Stream) (L : Layout) (h : Valid streams L) (c : CfbSt) (rd : Bytes)
     (hg : Good streams L c rd) :
     (∀ st ∈ streams, lookupOf c rd st.name = some st.data) ∧
-    (∀ name, name ≠ rootName → name ≠ [] → (∀ st ∈ streams, st.name ≠ name) → lookupOf c rd name = none) :=
+    (∀ name, (∀ st ∈ streams, st.name ≠ name) → lookupOf c rd name = none) :=
   ⟨fun st hst => lookupOf_stream streams L (valid_unpack streams L h) c rd hg st hst,
-   fun name h1 h2 h3 => lookupOf_absent streams L (valid_unpack streams L h) c rd hg name h1 h2 h3⟩
+   fun name h3 => lookupOf_absent streams L (valid_unpack streams L h) c rd hg name h3⟩
+
+/-- entry types: `get_stream` looks at STREAM entries only. On ANY reader state, entries of another type —
+    storages (a UserForm's designer storage carries the name of the form's module stream), the root, unused
+    entries — are invisible to it, whatever their names, start sectors, sizes and positions in the directory -/
+theorem get_stream_ignores_non_streams (c : CfbSt) (name : List Char) (rd : Bytes) :
+    getStream c name rd =
+      match (c.dirs.filter (fun d => d.kind = STREAM_OBJECT)).find? (fun d => d.name = name) with
+      | none => .err "notfound"
+      | some d => getStreamAt c d rd :=
+  getStream_streams_only c name rd
 
 /-- `containers_equal`: two containers holding the same streams read the same, whatever their layouts -/
 theorem containers_equal (streams : List Stream) (L₁ L₂ : Layout) (h₁ : Valid streams L₁) (h₂ : Valid streams L₂)
